@@ -273,6 +273,8 @@ def writearlpackedbit(infile, path):
     props['NZ'] = lvar.shape[1] + 1
     props['NY'] = lvar.shape[2]
     props['NX'] = lvar.shape[3]
+    # layer variables by level, as readvardef provides them
+    props['laykeys'] = [(vglvl, laykeys) for vglvl in vglvls[1:]]
     datamap = maparlpackedbit(
         path, mode='write', shape=(lvar.shape[0],), props=props)
 
@@ -334,22 +336,23 @@ def writearlpackedbit(infile, path):
             var_time['data'][ti] = CVAR
         for layk in laykeys:
             invar = infile.variables[layk.decode()]
-            var_time = datamap['layers'][layk.decode()][ti]
-            for li, var_time_lay in enumerate(var_time):
-                varhead = var_time_lay['head']
+            # layers are mapped by level and then by variable
+            for li, lvlkey in enumerate(datamap['layers'].dtype.names):
+                var_lay = datamap['layers'][lvlkey][layk.decode()]
+                varhead = var_lay['head']
                 for varpropk in varhead.dtype.names:
                     if varpropk not in _skipprop:
-                        varhead[varpropk] = getattr(invar, varpropk)
+                        varhead[varpropk][ti] = getattr(invar, varpropk)
 
                 indata = invar[ti, li]
                 CVAR, PREC, NEXP, VAR1, KSUM = pack2d(indata)
 
-                varhead['YYMMDDHHFF'] = timestr
-                varhead['LEVEL'] = '%2d' % (li + 1)
-                var_time_lay['data'] = CVAR
-                varhead['PREC'] = '%14.7E' % PREC
-                varhead['EXP'] = '%4d' % NEXP
-                varhead['VAR1'] = '%14.7E' % VAR1
+                varhead['YYMMDDHHFF'][ti] = timestr
+                varhead['LEVEL'][ti] = '%2d' % (li + 1)
+                var_lay['data'][ti] = CVAR
+                varhead['PREC'][ti] = '%14.7E' % PREC
+                varhead['EXP'][ti] = '%4d' % NEXP
+                varhead['VAR1'][ti] = '%14.7E' % VAR1
                 vglvl = vglvls[li + 1]
                 checksums[vglvl, layk] = KSUM
 
@@ -361,7 +364,7 @@ def writearlpackedbit(infile, path):
         datamap['vardef'][ti] = ' '.ljust(datamap['vardef'][ti].itemsize)
         datamap['hdr'][ti] = ' '.ljust(datamap['hdr'][ti].itemsize)
         datamap['vardef'][ti] = vardef.encode('ascii')
-        thead['LENH'] = datamap['vardef'][ti].itemsize
+        thead['LENH'] = '%4d' % datamap['vardef'][ti].itemsize
 
     datamap.flush()
 
@@ -400,8 +403,8 @@ def maparlpackedbit(path, mode='r', shape=None, props=None):
         props.update(inqarlpackedbit(path))
     else:
         srflen = 6 + 2 + (4 + 3 + 1) * len(props['sfckeys'])
-        laylen = (6 + 2 + (4 + 3 + 1) *
-                  len(props['laykeys'])) * (props['NZ'] - 1)
+        laylen = sum([6 + 2 + (4 + 3 + 1) * len(layvarkeys)
+                      for laykey, layvarkeys in props['laykeys']])
         props['LENH'] = 108 + srflen + laylen
 
     nx = props['NX']
